@@ -346,7 +346,7 @@ func (g *G) atom(d int) *Node {
 			}
 		case 18:
 			if d > 0 && p.CondExpr && (p.LookAhead || p.LookBehind) {
-				return &Node{K: KCondExpr, Kids: []*Node{g.look(d), g.condBranch(d - 1), g.condBranch(d - 1)}}
+				return &Node{K: KCondExpr, Bare: g.R.Intn(2) == 0, Kids: []*Node{g.look(d), g.condBranch(d - 1), g.condBranch(d - 1)}}
 			}
 		case 19:
 			if d > 0 && p.InlineOpts {
@@ -360,7 +360,7 @@ func (g *G) atom(d int) *Node {
 			}
 		case 21:
 			if p.Comments && g.R.Intn(2) == 0 {
-				return &Node{K: KComment, Text: []string{"", "c", "a b", "x|y"}[g.R.Intn(4)], Sp: g.R.Intn(3)}
+				return &Node{K: KComment, Text: []string{"", "c", "a b", "x|y", "(b)", "see (b) below", "(?<n>x)", "[a]", "a(b"}[g.R.Intn(9)], Sp: g.R.Intn(3)}
 			}
 		case 22:
 			if d > 0 && p.Balancing && g.gid > 0 {
